@@ -89,7 +89,7 @@ def main(tier):
                 rep.violations.append({"why": "listing generation panicked: " + o["panic"], "replay": {"program": src, "bpl": bpl}, "id": o["id"]})
             continue
         syms = o.get("symbols") or []
-        if not G.assign_anon_scopes(prog, [s["path"] for s in syms]):
+        if not G.assign_anon_scopes(prog, [s["path"] for s in syms], o.get("scopes")):
             continue
         nok += 1
         files, fsrc = pfiles[o["id"]]
@@ -132,6 +132,7 @@ def main(tier):
     mos = V.build_mos()
     root = V.fresh_dir("C11-proc")
     nproc = 0
+    nprocimp = 0
     for rec in [r for r in recs if len(r["prog"]) > 2 and r["id"] < 1_000_000][:60 if tier == "quick" else 600]:
         prog, src, bpl, move = progs[rec["id"]]
         d = os.path.join(root, "p%d" % rec["id"])
@@ -156,8 +157,26 @@ def main(tier):
         pfiles[o2["id"]] = pfiles[rec["id"]]
         omap[o2["id"]] = {"listing": {"main.asm": open(lst).read()}, "srcmap": None}
         nproc += 1
+        # the .lst files of the imported files (same rows as in-process with macro output attributed to the invocation)
+        files, fsrc = pfiles[rec["id"]]
+        for k, fn in enumerate(sorted(files), 1):
+            flst = os.path.join(d, "target", os.path.splitext(fn)[0] + ".lst")
+            rid = 2_000_000 + 10 * rec["id"] + k
+            base = next((r for r in recs if r["id"] == rid), None)
+            if base is None or not os.path.exists(flst):
+                continue
+            o3 = dict(base, id=3_000_000 + 10 * rec["id"] + k, move=True, rows=parse_listing(open(flst).read(), bpl), hasVice=False, vice=[])
+            if not move:
+                o3["srcmap"] = []
+                o3["hasSrcmap"] = False
+            recs.append(o3)
+            progs[o3["id"]] = progs[rid]
+            pfiles[o3["id"]] = pfiles[rec["id"]]
+            omap[o3["id"]] = {"listing": {fn: open(flst).read()}, "srcmap": None}
+            nprocimp += 1
     shutil.rmtree(root, ignore_errors=True)
     rep.cov["lst_files_from_mos_build"] = nproc
+    rep.cov["lst_files_of_imported_files_from_mos_build"] = nprocimp
     rep.cov["listings_of_imported_files"] = nimp[0]
     V.log("[C11] %d programs, %d built and listed" % (len(cases), nok))
     if nok < len(cases) // 10:
@@ -172,7 +191,7 @@ def main(tier):
     for r in recs[:2]:
         rep.sample({"program": progs[r["id"]][1], "bpl": r["bpl"], "move_macro": r["move"], "rows": r["rows"][:6]})
     rep.assumptions += ["only builds that are fixed points of the reference semantics are judged (C02 decides the others)",
-                        "listings of imported files are judged from to_listing() in-process; from `mos build` only main.lst is read"]
+                        "imported files are named distinctly (two files with the same stem in different directories would share one .lst; not generated)"]
     for v in verdicts:
         cid = v["id"]
         rep.verdict(v, {"program": progs[cid][1], "bytes_per_line": progs[cid][2], "move_macro": progs[cid][3], "listing": omap[cid].get("listing"), "srcmap": omap[cid].get("srcmap"), "why": v.get("why")})
